@@ -942,6 +942,9 @@ macro_rules! rel_vec {
                 let bf = a + dir / dl * far + $V::splat(0.3337);
                 let df = a.distance(bf) * 1.5;
                 $o.emit(json!({"k": "rel", "op": "move_towards", "f": $fm, "ty": ty, "sp": "arrival from afar", "a": wv(&a), "b": wv(&bf), "d": w(df), "got": wv(&a.move_towards(bf, df))}));
+                // and the other way round: a start far from the origin, a target near it (b - a then lives in a coarser binade than b)
+                let df2 = bf.distance(a) * 1.25;
+                $o.emit(json!({"k": "rel", "op": "move_towards", "f": $fm, "ty": ty, "sp": "arrival from afar (towards the origin)", "a": wv(&bf), "b": wv(&a), "d": w(df2), "got": wv(&bf.move_towards(a, df2))}));
             }
         }
         rel_vec!(@rot $rot, $o, $r, $V, $S, $n, is32, $fm, w, wv, ro, ty);
